@@ -126,6 +126,10 @@ def tau_kind(t):
 # ====================================================================== shared op execution
 
 
+def created_so_far(ids_seen):
+    return ids_seen if ids_seen is not None else ()
+
+
 def restore_player(ctx, league, name, path, ids_seen=None, check=False):
     """Rebuild one player from the durable store through `path`. Returns the new object."""
     old = league.players.get(name)
@@ -140,6 +144,10 @@ def restore_player(ctx, league, name, path, ids_seen=None, check=False):
                     ctx.violation("C20/deepcopy:%s" % f, {"name": name, "orig": repr(a), "copy": repr(b)})
     else:
         mu, sigma = league.stored(name)
+        if ctx.prop == "C20" and check and (len(created_so_far(ids_seen)) + len(name)) % 4 == 0 and not name.startswith("b"):
+            # the store held nothing but (mu, sigma): the player comes back without a name
+            league.labels[name] = None
+            ctx.fault("restore_without_name")
         label = league.label(name)
         try:
             if path == "create_rating":
@@ -1850,7 +1858,22 @@ class StoreDriver:
         self.B.ensure(flat(names))
         self.A.ensure(flat(names))
         teams = self.B.teams_of(names)
-        cp = copy.deepcopy(teams)
+        flatp = [p for t in teams for p in t]
+        if len(flatp) >= 2 and len(self.ids) % 3 == 0:
+            # the application hangs its own fields on rating objects, also ones that point at
+            # each other; copying must keep working (what happens to those fields is its
+            # business, mu / sigma / name / id are the library's)
+            try:
+                flatp[0].note = ["free text"]
+                flatp[0].rival = flatp[1]
+                flatp[1].rival = flatp[0]
+                ctx.fault("application_attributes_on_ratings")
+            except AttributeError:
+                pass
+        try:
+            cp = copy.deepcopy(teams)
+        except Exception as e:
+            ctx.violation("C20/deepcopy:raised_%s" % type(e).__name__, {"teams": names, "message": str(e)[:200]})
         ctx.evaluations += 1
         if cp is teams or not isinstance(cp, list) or len(cp) != len(teams):
             ctx.violation("C20/deepcopy:nested_outer", {"teams": names})
